@@ -66,4 +66,24 @@ def rangeSpec (m n s : Int) : Nat → List Int
 /-- number of elements of the sequence -/
 def rangeCount (m n s : Int) : Nat := ((if m ≤ n then n - m else m - n) / s).toNat + 1
 
+/-! ## filename expansion -/
+
+/-- is a path hidden from the pattern `pat`: its last component starts with `.` (and `.`/`..` always), unless the
+pattern's own last component starts with `.*` -/
+def hiddenFor (pat path : Str) : Bool :=
+  let b := basename path
+  b = ['.'] || b = ['.', '.'] || (b.head? = some '.' && !startsWith (basename pat) ['.', '*'])
+
+/-- the words one unquoted word containing `*` stands for, given the matcher's (sorted) answer: the matching
+non-hidden paths, or the word itself when there is none -/
+def globWords (found : List Str) (word : Str) : List Str :=
+  let vis := found.filter (fun p => !hiddenFor word p)
+  if vis = [] then [word] else vis
+
+/-- filename expansion of a token list: only unquoted tokens holding `*` are expanded, in place, the relative order of
+the words of the line is kept; every produced word is one token (tagged `"` when it holds a blank) -/
+def globSpec (glob : Str → Option (List Str)) (ts : List Tok) : List Tok :=
+  ts.flatMap (fun (sep, text) =>
+    if sep = [] ∧ text.contains '*' then (globWords ((glob text).getD []) text).map tagBlank else [(sep, text)])
+
 end Cicada.C12
